@@ -85,7 +85,9 @@ class Evaluator:
         self.term_type: Dict[int, ClassInfo] = {}  # types of params etc.
         self.callback_params: set = set()
         self.projection_of: Dict[int, List[T]] = {}
-        self.ext_calls: List[tuple] = []  # ids of param-bound terms entered via combinators
+        self.ext_calls: List[tuple] = []
+        self.bindings: List[tuple] = []       # (callee, param name, argument term, caller frame func, node)
+        self.shape_unpack: Dict[int, int] = {}  # id of an `x.shape` term -> number of names it was unpacked into  # ids of param-bound terms entered via combinators
 
     # ------------------------------------------------------------------ helpers
     def opaque(self, reason: str, node=None, frame: Optional[Frame] = None) -> T:
@@ -513,7 +515,7 @@ class Evaluator:
     def e_Subscript(self, e, fr):
         v = self.eval(e.value, fr)
         idx = self.eval(e.slice, fr)
-        return self.mk_index(v, idx)
+        return self._loc(self.mk_index(v, idx), e, fr)
 
     def e_Slice(self, e, fr):
         return mk("slice", *(self.eval(x, fr) if x is not None else NONE for x in (e.lower, e.upper, e.step)))
@@ -565,8 +567,13 @@ class Evaluator:
                     vals.append(vv)
         return mk("dict", tuple(keys), tuple(vals))
 
+    def _loc(self, t: T, e, fr) -> T:
+        if t.meta is None and t.kind in ("bin", "cmp", "call", "index"):
+            t.meta = {"loc": f"{fr.module.relpath}:{getattr(e, 'lineno', 0)}", "func": fr.func.qual, "src": ast.unparse(e)[:90]}
+        return t
+
     def e_BinOp(self, e, fr):
-        return self.mk_bin(BINOPS[type(e.op)], self.eval(e.left, fr), self.eval(e.right, fr), fr)
+        return self._loc(self.mk_bin(BINOPS[type(e.op)], self.eval(e.left, fr), self.eval(e.right, fr), fr), e, fr)
 
     def e_UnaryOp(self, e, fr):
         v = self.eval(e.operand, fr)
@@ -615,7 +622,7 @@ class Evaluator:
         parts = []
         for op, right in zip(e.ops, e.comparators):
             r = self.eval(right, fr)
-            parts.append(self.mk_cmp(CMPOPS[type(op)], left, r, fr))
+            parts.append(self._loc(self.mk_cmp(CMPOPS[type(op)], left, r, fr), e, fr))
             left = r
         if len(parts) == 1:
             return parts[0]
@@ -736,7 +743,7 @@ class Evaluator:
         return None
 
     def e_Call(self, e, fr):
-        return self.eval_call(e, fr)
+        return self._loc(self.eval_call(e, fr), e, fr)
 
     # ------------------------------------------------------------------ assignment targets
     def assign(self, target: ast.expr, value: T, fr: Frame, aug: bool = False):
@@ -745,6 +752,8 @@ class Evaluator:
             return
         if isinstance(target, (ast.Tuple, ast.List)):
             elts = target.elts
+            if value.kind == "attr" and value.args[1] == "shape" and not any(isinstance(x, ast.Starred) for x in elts):
+                self.shape_unpack[value.id] = len(elts)
             star = [i for i, x in enumerate(elts) if isinstance(x, ast.Starred)]
             n = len(elts)
             for i, x in enumerate(elts):
